@@ -57,7 +57,7 @@ func (d *c12Data) find(msg *api.Message) *c12Write {
 
 func init() {
 	Register(&Scenario{
-		Prop: "C12", Name: "write-approval",
+		Prop: "C12", Name: "write-approval", DeadlockDirected: true,
 		NonTrivial: []string{"c12-write-decided"},
 		Build: func(w *World) {
 			pr := BuildProto(w, ProtoOpt{Peers: 1 + w.T.Choose(2, "peers"), MinServers: 2, SecondEntity: false,
